@@ -85,6 +85,7 @@ def parseExpr : Nat → Json → E Expr
     | [k, a] =>
       match ← k.getStr? with
       | "num" => pure (.num (← a.getNat?))
+      | "real" => pure (.real (← a.getStr?))
       | "bool" => pure (.bool (← a.getBool?))
       | "str" => pure (.str (← a.getStr?))
       | "ref" => pure (.ref (← parseParts a))
@@ -227,6 +228,7 @@ def canParts (ps : List (Name × List Sub1)) : Json :=
 
 def encExpr : Expr → Json
   | .num n => Json.arr #["num", jnat n]
+  | .real s => Json.arr #["real", Json.str s]
   | .bool b => Json.arr #["bool", Json.bool b]
   | .str s => Json.arr #["str", Json.str s]
   | .ref ps => Json.arr #["ref", jparts ps]
@@ -239,6 +241,7 @@ def encOptExpr : Option Expr → Json
 
 def encFExpr : FExpr → Json
   | .num n => Json.arr #["num", jnat n]
+  | .real s => Json.arr #["real", Json.str s]
   | .bool b => Json.arr #["bool", Json.bool b]
   | .str s => Json.arr #["str", Json.str s]
   | .fref p subs => Json.arr #["ref", Json.str (dot p), Json.arr (subs.map encFSub1).toArray]
